@@ -379,12 +379,13 @@ fn parse_header(l: &str) -> Option<Header> {
 	})
 }
 
-async fn run_case(lines: &[String], out: &mut Out) {
+/// returns `false` when the oracle failed somewhere in the case
+async fn run_case(lines: &[String], out: &mut Out) -> bool {
 	let Some(h) = parse_header(&lines[0]) else {
 		for l in lines {
 			out.line(l.clone(), "bad-op".into(), Ok(()), false);
 		}
-		return;
+		return true;
 	};
 	let ping = lines.iter().any(|l| l.starts_with("cg wclose") && l.ends_with(" ping")).then_some((25u64, 50u64));
 	let env = start_env(&EnvCfg { assembly: h.assembly, max: h.max, http: h.http, ws: h.ws, ping, buffer: 16 }).await;
@@ -396,7 +397,15 @@ async fn run_case(lines: &[String], out: &mut Out) {
 	out.count(&format!("case.transports={}", if h.http && h.ws { "both" } else if h.http { "http_only" } else { "ws_only" }));
 	let mut ended = false;
 	let mut peak = 0usize;
+	let mut failed = false;
 	for l in &lines[1..] {
+		if failed {
+			// after the first oracle failure the rest of the case says nothing new and every further
+			// wait would run into its timeout: the lines are kept (the model still consumes them) but
+			// marked as not executed
+			out.line(l.clone(), "#skip".into(), Ok(()), false);
+			continue;
+		}
 		let w: Vec<&str> = l.split(' ').collect();
 		if w.len() < 2 || w[0] != "cg" {
 			out.line(l.clone(), "bad-op".into(), Ok(()), false);
@@ -411,16 +420,18 @@ async fn run_case(lines: &[String], out: &mut Out) {
 			out.count("refused.at_positive_limit");
 		}
 		let nontrivial = kind != "noop" && kind != "bad-op";
+		failed = orc.is_err();
 		out.line(l.clone(), o, orc, nontrivial);
 		if w[1] == "end" {
 			ended = true;
 		}
 	}
 	out.count(&format!("case.peak_live={peak}"));
-	if !ended {
-		// replay files without `cg end`: still stop the server
+	if !ended || failed {
+		// replay files without `cg end` / aborted cases: still stop the server
 		let _ = run.env.shutdown().await;
 	}
+	!failed
 }
 
 // ------------------------------------------------------------------------------------------------
@@ -667,12 +678,20 @@ fn main() {
 	}
 	let rt = runtime();
 	rt.block_on(async {
+		let mut failing = 0;
 		for c in &cases {
-			run_case(c, &mut out).await;
+			if !run_case(c, &mut out).await {
+				failing += 1;
+				if failing >= 5 {
+					// enough replays; do not spend the run in timeouts
+					out.notes.push("stopped after 5 failing cases".into());
+					break;
+				}
+			}
 		}
 	});
 	out.notes.push(
-		"every wait is 'until the expected observable or 10 s'; the bounded wait for stopped() at the end of each case and the ping-inactivity exit are wall-clock TESTS"
+		"every wait is 'until the expected observable or 5 s'; the bounded wait for stopped() at the end of each case and the ping-inactivity exit are wall-clock TESTS"
 			.into(),
 	);
 	out.notes.push(format!("cases run: {}", cases.len()));
